@@ -422,7 +422,7 @@ Bad == [k |-> "bad"]
 ResolveE(e, table, sch, cols) ==
     CASE e.k = "insub" ->
             LET r == Run(e.q, table, sch, cols) IN
-            IF ~r.ok \/ Len(r.names) # 1 THEN Bad
+            IF ~r.ok \/ Len(e.q.pivot) # 0 \/ Len(r.names) # 1 THEN Bad          \* a pivoted statement is no subquery
             ELSE InList(ResolveE(e.a, table, sch, cols),
                         IF r.ood THEN OOD ELSE IF r.rows = <<>> THEN Null
                         ELSE ListV([i \in 1..Len(r.rows) |-> r.rows[i][1]] \o <<>>), e.neg)
@@ -443,8 +443,11 @@ ResolveQ(q, table, sch, cols) ==
 Run(q, table, sch, cols) ==
     IF ~HasSub(q) THEN RunFlat(ResolveQ(q, table, sch, cols), table, sch, cols)
     ELSE LET inner == Run(q.sub, table, sch, cols) IN
-         IF ~inner.ok \/ inner.ood THEN inner
-         ELSE IF ~AllDistinct(inner.names) \/ Len(q.sub.pivot) # 0 THEN [inner EXCEPT !.ood = TRUE]   \* duplicate / pivoted inner names: not modelled
+         IF ~inner.ok THEN inner
+         ELSE IF Len(q.sub.pivot) # 0        \* PIVOT BY reshapes the final result of a statement: not available in a subquery
+              THEN [ok |-> FALSE, err |-> "pivot in subquery", ood |-> FALSE, names |-> <<>>, types |-> <<>>, rows |-> <<>>]
+         ELSE IF inner.ood THEN inner
+         ELSE IF ~AllDistinct(inner.names) THEN [inner EXCEPT !.ood = TRUE]   \* duplicate inner names: not modelled
          ELSE LET n == Len(inner.names)
                   sch2 == [c \in SeqToSet(inner.names) |-> inner.types[PosIn(inner.names, c)]]
                   tab2 == [i \in 1..Len(inner.rows) |-> [c \in SeqToSet(inner.names) |-> inner.rows[i][PosIn(inner.names, c)]]]
